@@ -238,6 +238,21 @@ Proof.
   exists rs, p, bdl, out. repeat split; auto.
 Qed.
 
+Lemma do_update_not_haderror c d ch r dl : snd (fst (do_update c d ch r dl)) <> UHadError.
+Proof.
+  unfold Model.do_update. cbn [cs_copy_events].
+  destruct r as [rs|]; cbn [fst snd]; [|discriminate].
+  destruct (negb (r_avail rs)); cbn [fst snd]; [discriminate|].
+  destruct (r_patch rs) as [p|]; cbn [fst snd]; [|discriminate].
+  match goal with |- context [should_install c ?x (p_num p)] => destruct (should_install c x (p_num p)) as [d3 sh] end.
+  destruct sh; cbn [fst snd]; try discriminate.
+  destruct dl as [bdl|]; cbn [fst snd]; [|discriminate].
+  destruct (inflate bdl) as [out|]; cbn [fst snd]; [|discriminate].
+  destruct (hash_ok out (p_hash p)); cbn [fst snd]; [|discriminate].
+  destruct (cs_install_status c d3 p out) as [E|E]; destruct (cs_install c d3 p out) as [d4 st];
+    cbn in *; subst st; discriminate.
+Qed.
+
 (* a download that does not inflate or does not match its hash leaves exactly the disk a failed
    download leaves, and is never reported installed *)
 Theorem rejected_download_frame c d ch rs bdl p :
@@ -559,5 +574,40 @@ Qed.
 Theorem release_change_reclaims c d k :
   other_release (c_rel c) d -> arts (norm c d) k = None.
 Proof. intros H. rewrite norm_other by auto. reflexivity. Qed.
+
+
+(* ================= C13: every call returns a value of its documented domain ================= *)
+Definition in_domain (o : op) (x : out) : Prop :=
+  match o with
+  | OInit _ _ _ | OAuto | OCheck _ _ => exists b, x = RBool b
+  | ONextNum | OCurNum => exists n, x = RNum n
+  | ONextPath => exists r, x = RPath r
+  | OUpdate _ _ _ => x = RStatus (-1) \/ x = RStatus 0 \/ x = RStatus 1 \/ x = RStatus 3
+  | _ => x = RUnit
+  end.
+
+Local Opaque Model.do_check Model.do_update Model.cs_next Model.cs_success Model.cs_failure
+      Model.cs_start Model.cs_current Model.cs_init_recover.
+
+Theorem step_in_domain w o : in_domain o (snd (fst (step w o))).
+Proof.
+  destruct w as [d cf].
+  destruct o as [relv y pk| | | | | | | | |ch r|ch r dl|g]; cbn.
+  - destruct (cfg_of relv y); cbn; [destruct pk; cbn; [destruct cf; cbn|]|]; eauto.
+  - reflexivity.
+  - destruct cf as [c|]; cbn; [destruct (cs_next c d)|]; cbn; eauto.
+  - destruct cf as [c|]; cbn; [destruct (cs_next c d)|]; cbn; eauto.
+  - destruct cf as [c|]; cbn; [destruct (cs_current c d)|]; cbn; eauto.
+  - destruct cf as [c|]; reflexivity.
+  - destruct cf as [c|]; cbn; [destruct (cs_success c d)|]; reflexivity.
+  - destruct cf as [c|]; cbn; [destruct (cs_failure c d)|]; reflexivity.
+  - destruct cf as [c|]; cbn; eauto.
+  - destruct cf as [c|]; cbn; [destruct (do_check c d ch r) as [[? ?] ?]|]; cbn; eauto.
+  - destruct cf as [c|]; cbn; [|auto].
+    pose proof (do_update_not_haderror c d ch r dl) as Hn.
+    destruct (do_update c d ch r dl) as [[? u] ?]. destruct u; cbn in *; auto.
+    exfalso. apply Hn. reflexivity.
+  - reflexivity.
+Qed.
 
 End Calls.
